@@ -158,6 +158,16 @@ def run_history(W, cfg):
         orow, ocol = W.int(f'or{k}'), W.int(f'oc{k}')
         F = lt.fourier.dft2(f, (ar, ac), shape=(M, N), shift=(sr, sc), offset=(orow, ocol))
         W.ob(f'call{k}', F, W.array(dft2_spec(W, f, m, n, M, N, ar, ac, sr, sc, orow, ocol, True)))
+        # sampling, shift and offset handed over as arrays that the caller keeps: left as they were, and good for a second call
+        al, sh, of = W.array([ar, ac]), W.array([sr, sc]), W.array([orow, ocol])
+        f0 = f.copy()
+        F2 = lt.fourier.dft2(f, al, shape=(M, N), shift=sh, offset=of)
+        W.ob(f'call{k}: array-valued arguments, same transform', F2, F)
+        W.ob(f'call{k}: caller\'s alpha array untouched', al, W.array([ar, ac]))
+        W.ob(f'call{k}: caller\'s shift array untouched', sh, W.array([sr, sc]))
+        W.ob(f'call{k}: caller\'s input untouched', f, f0)
+        F3 = lt.fourier.dft2(f, al, shape=(M, N), shift=sh, offset=of)
+        W.ob(f'call{k}: the same arrays used again', F3, F)
 
 
 HARNESSES = {
